@@ -630,29 +630,36 @@ def gen(tier, rng):
         yield c
     quick = tier == 'quick'
     # (a) exhaustive: every reference state x every operation with every argument, for the three mapping classes
-    spell = [('a', 'A'), ('b', 'B')] if quick else [('a', 'A'), ('b', 'B'), ('c', 'C')]
-    vals = [1, 2] if quick else [1, 2, 3]
-    keys = [s for p in spell for s in p]
-    probes = keys + ['z']
-    ops = dict_ops(keys, vals, [7])
-    for st in states(spell, vals):
-        path = [[O_SET, k, v] for k, v in st]
-        for cls in (PLAIN, ORDERED, DEFAULT):
-            for op in ops:
-                yield ('exhaustive_state_x_op', 1, [cls, 0, [], path + [op], probes, len(path)])
-            if cls != DEFAULT:
-                # the same state reached through the constructor
-                for op in ops[::3]:
-                    yield ('exhaustive_state_x_op', 1, [cls, 0, [[k, v] for k, v in st], [op], probes, 0])
+    #     quick: 2 key pairs x values {1,2}; thorough adds 3 key pairs x value {1} and 2 key pairs x values {1,2,3}
+    scopes = [([('a', 'A'), ('b', 'B')], [1, 2])]
+    if not quick:
+        scopes += [([('a', 'A'), ('b', 'B'), ('c', 'C')], [1]), ([('a', 'A'), ('b', 'B')], [1, 2, 3])]
+    for spell, vals in scopes:
+        keys = [s for p in spell for s in p]
+        probes = keys + ['z']
+        ops = dict_ops(keys, vals if len(vals) > 1 else [1, 2], [7])
+        for st in states(spell, vals):
+            path = [[O_SET, k, v] for k, v in st]
+            for cls in (PLAIN, ORDERED, DEFAULT):
+                for op in ops:
+                    yield ('exhaustive_state_x_op', 1, [cls, 0, [], path + [op], probes, len(path)])
+                if cls != DEFAULT:
+                    # the same state reached through the constructor
+                    for op in ops[::3]:
+                        yield ('exhaustive_state_x_op', 1, [cls, 0, [[k, v] for k, v in st], [op], probes, 0])
     # (b) exhaustive: every history of bounded length over a reduced operation alphabet
     small = [[O_SET, 'a', 1], [O_SET, 'A', 2], [O_SET, 'b', 1], [O_SET, 'B', 2], [O_DEL, 'a'], [O_DEL, 'B'],
              [O_POP, 'A', []], [O_POP, 'b', [7]], [O_POPITEM], [O_SETDEFAULT, 'A', 3], [O_SETDEFAULT, 'b', 3],
              [O_UPDATE, [['B', 4], ['a', 4]]], [O_CLEAR], [O_LOWER], [O_GETD, 'B', [7]]]
-    depth = 3 if quick else 4
-    for n in range(1, depth + 1):
+    for n in range(1, 4):
         for seq in itertools.product(small, repeat=n):
-            for cls in ((ORDERED, DEFAULT) if n == depth else (PLAIN, ORDERED, DEFAULT)):
+            for cls in ((ORDERED, DEFAULT) if n == 3 else (PLAIN, ORDERED, DEFAULT)):
                 yield ('exhaustive_histories', 1, [cls, 0, [], list(seq), ['a', 'A', 'b', 'B', 'z'], n - 1])
+    if not quick:
+        small4 = [o for o in small if o not in ([O_SET, 'b', 1], [O_POP, 'b', [7]], [O_SETDEFAULT, 'b', 3], [O_GETD, 'B', [7]])]
+        for seq in itertools.product(small4, repeat=4):
+            for cls in (ORDERED, DEFAULT):
+                yield ('exhaustive_histories', 1, [cls, 0, [], list(seq), ['a', 'A', 'b', 'B', 'z'], 3])
     # (c) constructor: every list of <= 3 (quick) / 4 pairs over {a, A, b}
     for n in range(0, 4 if quick else 5):
         for ks in itertools.product(['a', 'A', 'b'], repeat=n):
@@ -675,9 +682,9 @@ def gen(tier, rng):
         for seq in itertools.product(ssmall, repeat=n):
             yield ('set_exhaustive_histories', 2, [[], list(seq), ['a', 'A', 'b', 'B', 'z'], n - 1])
     # (e) random long histories with richer keys
-    for _ in range(1500 if quick else 30000):
+    for _ in range(1500 if quick else 4000):
         yield ('random_histories', 1, random_dict_history(rng, 60))
-    for _ in range(700 if quick else 15000):
+    for _ in range(700 if quick else 2000):
         yield ('set_random_histories', 2, random_set_history(rng, 60))
     # (f) edge / malformed: operations on absent keys and on empty containers, empty and caseless keys, duplicates
     edge_keys = ['', ' ', '1', '_', 'a', 'A', '€', 'Aa', 'aA']
@@ -685,7 +692,7 @@ def gen(tier, rng):
         for k in edge_keys:
             for op in ([O_GET, k], [O_DEL, k], [O_POP, k, []], [O_POP, k, [3]], [O_GETD, k, []], [O_SETDEFAULT, k, 3], [O_POPITEM], [O_CLEAR]):
                 yield ('edge', 1, [cls, 4, [], [op, op, [O_SET, k.upper(), 1], op, op], edge_keys, 0])
-        for _ in range(60 if quick else 600):
+        for _ in range(60 if quick else 300):
             ks = [rng.choice(edge_keys) for _ in range(rng.randint(2, 6))]
             init = [] if cls == DEFAULT else [[k, i] for i, k in enumerate(ks)]
             yield ('edge', 1, [cls, 0, init, [[O_UPDATE, [[k, 10 + i] for i, k in enumerate(ks)]], [O_POPITEM], [O_DEL, ks[0]], [O_DEL, ks[0]]], edge_keys, 0])
@@ -761,8 +768,8 @@ RULE = ('A case is a HISTORY on one of the four classes: constructor arguments, 
         'length <= 60 over mixed-case keys of length 0..5 with digits, symbols and caseless non-ASCII characters. distinct = distinct '
         '(function, argument); non-trivial = the history passes through a non-empty container.')
 EXHAUSTIVE = {
-    'quick': 'mappings: all 41 states over keys {a,A,b,B} x values {1,2} x all 67 operation instances x 3 classes; all histories of length <= 3 over 15 operations; all constructor lists of <= 3 pairs over {a,A,b}. set: all 13 states x 29 operation instances; all histories of length <= 3 over 12 operations',
-    'thorough': 'mappings: all 1 531 states over keys {a,A,b,B,c,C} x values {1,2,3} x all operation instances x 3 classes; all histories of length <= 4 over 15 operations; all constructor lists of <= 4 pairs. set: all 79 states x 39 operation instances; all histories of length <= 4 over 12 operations',
+    'quick': 'mappings: all 41 reference states over keys {a,A,b,B} x values {1,2} x all 48 operation instances x 3 classes (state reached by setitem; a third of the operations also from the constructor); all histories of length <= 3 over a 15-operation alphabet; all constructor lists of <= 3 pairs over {a,A,b}. set: all 13 states over {a,A,b,B} x 29 operation instances (by add path and by constructor); all histories of length <= 3 over 12 operations',
+    'thorough': 'mappings: as quick, plus all 79 states over {a,A,b,B,c,C} x value 1 x 68 operation instances and all 85 states over {a,A,b,B} x values {1,2,3} x 52 operation instances, x 3 classes; all histories of length <= 3 over 15 operations and of length 4 over 11 operations; all constructor lists of <= 4 pairs. set: all 79 states over {a,A,b,B,c,C} x 39 operation instances; all histories of length <= 4 over 12 operations',
 }
 TRUSTED_BASE = ['modelled (not verified) code: pybtex/utils.py:80-379 (the four container classes) and the MutableMapping / MutableSet mix-ins of CPython 3.12 Lib/_collections_abc.py that they inherit (get pop popitem clear update setdefault keys items values; remove pop clear |= -=)',
                 'repr() is compared as the data it prints (parsed back with ast.literal_eval), not as text']
@@ -770,4 +777,7 @@ ASSUMPTIONS = ['lower is idempotent: lower (lower k) = lower k (hypothesis of th
                'boolean key equality decides equality (proved for the extracted instance str_eqb)',
                'correspondence domain: keys are ASCII strings plus caseless non-ASCII symbols; non-ASCII letters are outside the compared domain (the theorems are about an abstract key type and do not depend on it)',
                'set iteration order (hash order) is unobservable: iterations of the set are compared sorted, and MutableSet.pop is modelled as "removes some element" (the element the implementation popped is passed to the model, which checks it is a member)']
-PARTIAL = []
+PARTIAL = ['default_run_refines_partial: the defaulting variant is proved to refine the reference map only on histories without lower() and without get-with-default / setdefault / pop-with-default of a then-absent key; the full statement is refuted (default_lower_refuted, default_pop_default_refuted = known findings C13-F1, C13-F2); what get/setdefault do there is stated exactly by default_get_setdefault_no_insert',
+           'init_refines_partial: the constructor is proved to be the sequence of insertions only for argument lists without an exactly repeated key (run_refines itself starts from the dict-de-duplicated list and is unconditional); refuted in general by init_refuted = known finding C13-F3',
+           'repr is modelled, proved and compared as the data it prints, not as text; set iteration order, the element returned by set.pop() and the item returned by popitem() are not fixed by the oracle',
+           'not modelled: __eq__, update(**kwargs), &=, ^= and the binary set operators (outside the operation list of the property)']
